@@ -88,3 +88,17 @@ Example C13_trim_search_nonvacuous :
   length (warcs (TrimSearch.trim_model TrimSearchProofs.ts_ex)) = 2.
 Proof. vm_compute. repeat split. Qed.
 Print Assumptions C13_trim_search_nonvacuous.
+
+(* min_det = reverse . determinize . trim . reverse . determinize . trim (Brzozowski): whatever determinisation
+   procedure is used, if it preserves every string weight (C13_determinize_invariant gives this for the weighted subset
+   construction whenever it terminates), the whole pipeline with the modelled trim preserves every string weight. *)
+Theorem C13_brzozowski_pipeline : forall (S : SR) (det : wfsa S -> wfsa S),
+  (forall m xs, weight (det m) xs = weight m xs) ->
+  forall m xs,
+    weight (TrimSearch.trim_model (det (wreverse (TrimSearch.trim_model (det (wreverse m)))))) xs = weight m xs.
+Proof.
+  intros S det Hdet m xs.
+  rewrite (proj1 (C13_trim_search S _)), Hdet, (reverse_weight S), (proj1 (C13_trim_search S _)), Hdet, (reverse_weight S), rev_involutive.
+  reflexivity.
+Qed.
+Print Assumptions C13_brzozowski_pipeline.
